@@ -10,9 +10,12 @@ CONSTANTS Mode, MaxLen, PAlpha, MaxToks, Big
 VARIABLES a, b, phase
 
 T(s) == s
+\* index tokens that do not fit the native index type: 2^64, 2^64-1, 2^32, 10^20-1 (array-index syntax, far out of range)
+Two64 == <<49,56,52,52,54,55,52,52,48,55,51,55,48,57,53,53,49,54,49,54>>
 Toks == { <<97>>, <<98>>, <<>>, <<48>>, <<49>>, <<50>>, <<51>>, <<48,49>>, <<48,48>>, <<45>>, <<43,49>>, <<45,49>>,
-          <<49,120>>, <<126>>, <<47>>, <<97,47,98>>, <<109,126,110>>, <<233>>, <<49,48>>, <<32>> }
-SmallToks == { <<97>>, <<>>, <<48>>, <<49>>, <<50>>, <<48,49>>, <<45>>, <<126>>, <<47>> }
+          <<49,120>>, <<126>>, <<47>>, <<97,47,98>>, <<109,126,110>>, <<233>>, <<122>>, <<49,48>>, <<32>>,
+          Two64, <<49,56,52,52,54,55,52,52,48,55,51,55,48,57,53,53,49,54,49,53>>, <<52,50,57,52,57,54,55,50,57,54>>, <<57,57,57,57,57,57,57,57,57,57,57,57,57,57,57,57,57,57,57,57>> }
+SmallToks == { <<97>>, <<>>, <<48>>, <<49>>, <<50>>, <<48,49>>, <<45>>, <<126>>, <<47>>, Two64 }
 TokSeqs == {<<>>} \cup { <<t>> : t \in Toks }
            \cup { <<t, u>> : t \in (IF Big THEN Toks ELSE SmallToks), u \in Toks }
            \cup (IF MaxToks >= 3 THEN { <<t, u, w>> : t \in SmallToks, u \in SmallToks, w \in Toks } ELSE {})
@@ -23,7 +26,9 @@ L1 == S0 \cup ObjsOver(K1, S0) \cup ArrsOver(S0, 3)
 L1s == { JInt(1), EmptyObj, EmptyArr, JObj([k \in {<<97>>} |-> JInt(1)]),
          JObj([k \in {<<48>>, <<>>} |-> IF k = <<>> THEN JNull ELSE JInt(1)]), JArr(<<JInt(1), JNull>>) }
 L2 == L1 \cup ObjsOver({<<97>>, <<48>>}, L1s) \cup ArrsOver(L1s, 2)
-Docs == IF Big THEN L2 ELSE L1 \cup ObjsOver({<<97>>}, L1s) \cup ArrsOver(L1s, 1)
+\* (objects over z and e-acute: an ASCII / non-ASCII pair of member names)
+NA == ObjsOver({<<122>>, <<233>>}, S0)
+Docs == (IF Big THEN L2 ELSE L1 \cup ObjsOver({<<97>>}, L1s) \cup ArrsOver(L1s, 1)) \cup NA
 
 \* documents for flatten: include keys needing escapes, exclude nothing (side condition evaluated by spec)
 KF == { <<97>>, <<126>>, <<97,47,98>>, <<48>> }
